@@ -177,6 +177,24 @@ def apply_sections(unit, text, d, fn_name, what):
             edits.append((fs, s['text'] + '\n'))
         elif nm == 'body_start':
             edits.append((fh + 1, '\n' + s['text'] + '\n'))
+        elif nm == 'tail':
+            # R23: bind the function's final expression so that proof code can run after it:
+            #   `EXPR`  ->  `let verif_ret = EXPR; <text>; verif_ret`        (semantics preserving)
+            k, dd, last_semi = fh + 1, 0, fh
+            while k < fe - 1:
+                c = m[k]
+                if c in rp.OPEN:
+                    dd += 1
+                elif c in rp.CLOSE:
+                    dd -= 1
+                elif c == ';' and dd == 0:
+                    last_semi = k
+                k += 1
+            tail_txt = text[last_semi + 1:fe - 1]
+            if not tail_txt.strip() or re.match(r'^\s*(if|match|for|while|loop|\{)\b', tail_txt):
+                raise AnchorError(f'{what}: cannot isolate the final expression for a `tail` section')
+            unit.rewrites.append(('R23', what, 1))
+            edits.append((last_semi + 1, ('REPL', fe - 1, '\nlet verif_ret = ' + tail_txt.strip() + ';\n' + s['text'] + '\nverif_ret\n')))
         elif nm == 'body_end':
             edits.append((fe - 1, '\n' + s['text'] + '\n'))
         elif nm in ('before', 'after'):
